@@ -66,7 +66,7 @@ func payloadLens(thorough bool) []int {
 
 func TestCheck(t *testing.T) {
 	r := vp.New("C12", "exploration",
-		"nested loops: payload lengths x passphrases for round trip and determinism; for each ciphertext of a sub-grid every truncation length and every single-bit flip and every other passphrase; for every passphrase length 1..136 (thorough 1..264) every one-bit neighbour at every byte position (thorough: every bit) and the one-byte shorter / longer neighbours, through DecryptAES, DecryptValueKey and DecryptMetadata; every nonce length 0..16; value keys for 4 key types x context-ID lengths 0..64; second hash over 6 hash functions; every call sequence of length <=4 over encrypt/decrypt/second-hash of 3 pairs (history determinism, results scribbled over after use); every index of 2 multihashes x subsets of 3 records through the dhash functions and DHashClient.Find, with every stored value truncated to every length. Non-trivial: everything except zero-length payload with zero-length passphrase.",
+		"nested loops: payload lengths x passphrases for round trip and determinism; for each ciphertext of a sub-grid every truncation length and every single-bit flip and every other passphrase; for every passphrase length 1..136 (thorough 1..264) every one-bit neighbour at every byte position (thorough: every bit) and the one-byte shorter / longer neighbours, through DecryptAES, DecryptValueKey and DecryptMetadata; every nonce length 0..16; value keys for 4 key types x context-ID lengths 0..64; second hash over 6 hash functions; every call sequence of length <=4 over encrypt/decrypt/second-hash of 3 pairs (history determinism, results scribbled over after use); every index of 2 multihashes x subsets of 3 records through the dhash functions and DHashClient.Find, with every stored value truncated to every length; the same workflow over the HTTP dhstore client with metadata of 1 .. 1024 bytes (every length around the encoded-size thresholds near the maximum) and context IDs of 0 / 63 / 64 bytes. Non-trivial: everything except zero-length payload with zero-length passphrase.",
 		"patterned payload/passphrase bytes; only single-bit flips and truncations of ciphertexts (other alterations rest on AES-GCM authentication, trusted)",
 		"the find workflow is driven through an in-memory DHStoreAPI and, for a subset, through the HTTP dhstore client and the provider cache over an in-memory network",
 	)
@@ -605,7 +605,22 @@ func checkFind(r *vp.Recorder, thorough bool) {
 			r.Outcome(fmt.Sprintf("find-%d-%d", len(want[0]), len(want[1])))
 		}
 	}
-	checkFindHTTP(r, mhs, recs, unknown)
+	checkFindHTTP(r, "find-http", mhs, recs, unknown)
+	// the same over HTTP with records at the size limits: metadata of every
+	// length around the 1 KiB maximum (and some below; never empty: metadata starts with a protocol ID), context IDs empty and
+	// of the maximal 64 bytes, three records per index
+	for _, mdLen := range []int{1, 2, 255, 256, 512, 700, 767, 768, 791, 792, 800, 1000, 1023, 1024} {
+		for _, ctxLen := range []int{0, 64} {
+			// (provider, context ID) pairs are distinct: the third record has
+			// the first one's provider and always a context ID of its own
+			big := []record{
+				{recs[0].prov, fixture.Bytes(ctxLen, 31), fixture.Bytes(mdLen, 41)},
+				{recs[1].prov, fixture.Bytes(ctxLen, 32), fixture.Bytes(mdLen, 42)},
+				{recs[2].prov, fixture.Bytes(63, 33), fixture.Bytes(mdLen, 43)},
+			}
+			checkFindHTTP(r, fmt.Sprintf("find-http|md=%d|ctx=%d", mdLen, ctxLen), mhs, big, unknown)
+		}
+	}
 }
 
 func checkHostile(r *vp.Recorder, key string, st *memStore, cl *client.DHashClient, mh multihash.Multihash, want []string) {
@@ -688,8 +703,7 @@ func checkHostile(r *vp.Recorder, key string, st *memStore, cl *client.DHashClie
 
 // checkFindHTTP drives the same workflow through the HTTP dhstore client and
 // the provider cache over the in-memory network.
-func checkFindHTTP(r *vp.Recorder, mhs []multihash.Multihash, recs []record, unknown multihash.Multihash) {
-	key := "find-http"
+func checkFindHTTP(r *vp.Recorder, key string, mhs []multihash.Multihash, recs []record, unknown multihash.Multihash) {
 	if !r.Mine(key) {
 		return
 	}
